@@ -36,9 +36,17 @@ def export_cases(ctx):
     pool = min(parts, ctx.pick(8, 16), os.cpu_count() or 8)
 
     def one(p):
-        r = ctx.tlc("codec", "MCTLSCodec", cfg, workers=1, env={"VERIF_PART": p, "VERIF_PARTS": parts},
-                    label="%s-part%d" % (cfg, p), timeout=ctx.pick(900, 3000),
-                    java_opts=["-Xmx1500m", "-XX:ParallelGCThreads=2"])
+        def tlc(attempt):
+            return ctx.tlc("codec", "MCTLSCodec", cfg, workers=1, env={"VERIF_PART": p, "VERIF_PARTS": parts},
+                           label="%s-part%d-%d" % (cfg, p, attempt), timeout=ctx.pick(900, 3000),
+                           java_opts=["-Xmx1500m", "-XX:ParallelGCThreads=2"])
+        try:
+            r = tlc(0)
+        except Infra as ex:
+            if "rc=143" not in str(ex) and "rc=137" not in str(ex):
+                raise
+            ctx.log("TLC partition %d was killed from outside, running it again" % p)
+            r = tlc(1)
         cases = r.records.pop("CASE", [])
         r.out = ""
         path = ctx.write_ndjson("cases-part%d.ndjson" % p, cases)
